@@ -85,7 +85,7 @@ def source_table(thorough):
     for rep in reps:
         for n in ([0, 1, 3, 4, 5, 9] if thorough else [0, 1, 4, 9]):
             E("VectorSource<Big>", {"repeat": rep}, "ramp", n, big=True, sched=(n in (4, 9) and rep in (1, 2)))
-        for n in ([0, 100, 4096, 4097, 9000] if thorough else [0, 100, 4097]):
+        for n in ([0, 100, 4096, 4097, 9000, 20000] if thorough else [0, 100, 4097]):
             E("VectorSource<u8>", {"repeat": rep}, "bytes", n)
             E("FileSource<u8>", {"repeat": rep}, "bytes", n)
             E("SigMFSource<u8>", {"repeat": rep}, "bytes", n)
@@ -98,6 +98,9 @@ def source_table(thorough):
     for rep in (1, 2):
         for extra in (1, 3):
             E("FileSource<u32>", {"repeat": rep, "extra": extra}, "ramp", 9)
+    # files longer than the 8 KiB read-ahead buffer of the reader: reads come back short in mid-file
+    E("FileSource<u8>", {"repeat": 1}, "bytes", 12000)
+    E("FileSource<u32>", {"repeat": 2}, "ramp", 3000)
     # the same for a SigMF recording whose data file ends inside a sample
     for rep in (1, 2, 3):
         for n, extra in ((9, 1), (9, 3), (1024, 2)):
